@@ -39,7 +39,7 @@ def check(ctx):
         "the real objects: equal only if all four fields are equal, symmetric, transitive on generated triples, equal objects "
         "hash equally, copies equal and hash equally; the same pairs are decided by the model (term_eqb_p, list equality, the "
         "translated IoContract.__eq__) inside Coq. non-trivial = every pair; distinct by canonical pair")
-    proved = ctx.prove("props/C19.v", ["proofs/PolyDomainFacts.v", "proofs/TermFacts.v"])
+    proved = ctx.prove("props/C19.v", ["proofs/PolyDomainFacts.v", "proofs/TermFacts.v", "proofs/TermGenCore.v"])
     ctx.build(["model/PolyDomain.vo"])
     rng = random.Random(ctx.seed + 19)
     n = (150 if ctx.quick else 3000) * (1 if proved else 3)
